@@ -11,8 +11,8 @@ def Good (D : Key) (p : Str) : Prop := isAbs p = true ∧ D <+: keyOfAbs p
 /-- an absolute directory string whose key is comparable with `D` -/
 def GoodDir (D : Key) (p : Str) : Prop := isAbs p = true ∧ Cmp D (keyOfAbs p)
 
-/-- a directory entry name: non-empty, no slash, not `..` -/
-def Plain (n : Str) : Prop := n ≠ [] ∧ '/' ∉ n ∧ n ≠ dotdot
+/-- a directory entry name: non-empty, no slash, neither `..` nor `.` -/
+def Plain (n : Str) : Prop := n ≠ [] ∧ '/' ∉ n ∧ n ≠ dotdot ∧ n ≠ ['.']
 
 instance (n : Str) : Decidable (Plain n) := by unfold Plain; infer_instance
 
@@ -73,7 +73,7 @@ theorem filepart_ok (rel : List Str) (name : Str) (hrel : ∀ c ∈ rel, Plain c
   · unfold NoDotDot
     rw [splitOn_joinWith '/' _ (by simp) (fun x hx => (hall x hx).2.1)]
     intro hm
-    exact (hall _ hm).2.2 rfl
+    exact (hall _ hm).2.2.1 rfl
 
 /-! ### `os.makedirs` succeeds only on a directory -/
 
@@ -218,6 +218,54 @@ theorem Good.filepart {dst : Str} {rel : List Str} {name : Str} (hd : Good D dst
     (hrel : ∀ c ∈ rel, Plain c) (hn : Plain name) : Good D (join dst (filepart rel name)) :=
   hd.join_rel (filepart_ok rel name hrel hn).1 (filepart_ok rel name hrel hn).2
 
+theorem isComp_of_plain {c : Str} (h : Plain c) : isComp c = true := by
+  simp [isComp, h.1, h.2.2.2]
+
+/-- the key of `join dst (filepart rel name)`: the key of `dst` followed by `rel` and `name` -/
+theorem keyOfAbs_filepart (dst : Str) (rel : List Str) (name : Str)
+    (hrel : ∀ c ∈ rel, Plain c) (hn : Plain name) :
+    keyOfAbs (join dst (filepart rel name)) = keyOfAbs dst ++ (rel ++ [name]) := by
+  have hall : ∀ c ∈ rel ++ [name], Plain c := by
+    intro c hc
+    rcases List.mem_append.mp hc with h | h
+    · exact hrel c h
+    · simp at h; subst h; exact hn
+  have hok := filepart_ok rel name hrel hn
+  have hs : splitOn '/' (filepart rel name) = rel ++ [name] := by
+    unfold filepart
+    exact splitOn_joinWith '/' _ (by simp) (fun x hx => (hall x hx).2.1)
+  rw [keyOfAbs_join _ _ hok.1, foldl_keyStep_noDD _ _ hok.2, hs]
+  congr 1
+  rw [List.filter_eq_self]
+  exact fun c hc => isComp_of_plain (hall c hc)
+
+/-- the parent directory of a copied entry lies under `D` as well -/
+theorem good_filepart_dirname {dst : Str} {rel : List Str} {name : Str} (hd : Good D dst)
+    (hrel : ∀ c ∈ rel, Plain c) (hn : Plain name) : Good D (dirname (join dst (filepart rel name))) := by
+  have hg : Good D (join dst (filepart rel name)) := hd.filepart hrel hn
+  refine ⟨isAbs_dirname _ hg.1, ?_⟩
+  have hk := keyOfAbs_eq_step_dirname _ (headRaw_ne_nil_of_isAbs _ hg.1)
+  have hA := keyOfAbs_filepart dst rel name hrel hn
+  have hlen : (keyOfAbs dst).length < (keyOfAbs (join dst (filepart rel name))).length := by
+    rw [hA]; simp
+  have hD := hg.2
+  have hDlen : D.length ≤ (keyOfAbs dst).length := hd.2.length_le
+  rw [hk] at hD hlen
+  generalize keyOfAbs (dirname (join dst (MesonModel.Install.filepart rel name))) = kp at hD hlen ⊢
+  generalize basename (join dst (MesonModel.Install.filepart rel name)) = b at hD hlen
+  unfold keyStep at hD hlen
+  by_cases h1 : b = []
+  · simpa [h1] using hD
+  · by_cases h2 : b = ['.']
+    · simpa [h2] using hD
+    · by_cases h3 : b = dotdot
+      · simp only [h1, h2, h3, decide_false, Bool.or_self, Bool.false_eq_true, if_false, if_true] at hD
+        exact List.IsPrefix.trans hD (dropLast_prefix _)
+      · simp only [h1, h2, h3, decide_false, Bool.or_self, Bool.false_eq_true, if_false] at hD hlen
+        apply List.prefix_of_prefix_length_le hD (List.prefix_append _ _)
+        simp at hlen
+        omega
+
 theorem Inv_copydirDirStep (dst : Str) (ex : List Str) (rel : List Str) (a : CdAcc) (e : Str × DirEnt)
     (hd : Good D dst) (hrel : ∀ c ∈ rel, Plain c) (hn : Plain e.1) (hI : Inv D fs0 a.s) :
     Inv D fs0 (copydirDirStep cfg dst ex rel a e).s := by
@@ -257,8 +305,8 @@ theorem Inv_copydirFileStep (sr dst : Str) (ex : List Str) (rel : List Str) (rm 
     Inv D fs0 (copydirFileStep cfg sr dst ex rel rm m fo s e) := by
   have hg : Good D (join dst (filepart rel e.1)) := hd.filepart hrel hn
   have hk := hg.key cfg
-  have hp : GoodDir D (dirname (join dst (filepart rel e.1))) := hg.dirname
-  have hb : basename (join sr e.1) ≠ dotdot := by rw [basename_join sr e.1 hn.2.1]; exact hn.2.2
+  have hp : Good D (dirname (join dst (filepart rel e.1))) := good_filepart_dirname hd hrel hn
+  have hb : basename (join sr e.1) ≠ dotdot := by rw [basename_join sr e.1 hn.2.1]; exact hn.2.2.1
   unfold copydirFileStep
   dsimp only
   split
@@ -279,7 +327,7 @@ theorem Inv_copydirFileStep (sr dst : Str) (ex : List Str) (rel : List Str) (rm 
                 (dmMakedirs cfg (dirname (join dst (filepart rel e.1))) false s)
             else s) := by
           have hmk := Inv_dmMakedirs (D := D) (fs0 := fs0) cfg (dirname (join dst (filepart rel e.1))) false s
-            (hp.key cfg) hI
+            (hp.toDir.key cfg) hI
           split
           · split
             · exact hmk
@@ -287,8 +335,7 @@ theorem Inv_copydirFileStep (sr dst : Str) (ex : List Str) (rel : List Str) (rm 
               split
               · exact hmk
               · rename_i hdry
-                exact Inv_chmodNode_dir _ _ _ (hp.key cfg)
-                  (dmMakedirs_isDir cfg _ _ s (by simpa using hdry) hsf' (by simpa using hnf)) hmk
+                exact Inv_chmodNode _ _ _ (hp.key cfg) hmk
           · exact hI
         exact Inv_fileStepTail cfg sr dst rel m fo e _ hg hb h1
 
